@@ -21,7 +21,8 @@ ASSUMPTIONS = ["time.perf_counter() is a real number that never decreases (exter
                "written only by the simulator's own advance_progress is the frame clause of every scheduler contract (field P is owned)"]
 NOT_COVERED = ["'a real-time run with compliant simulators completes without internal error' and 'a run whose simulators answer instantly is "
                "never reported as too slow' are whole-run wall-clock statements that depend on asyncio.wait_for timeouts in next_step_settled and "
-               "on event-loop latency: no function contract expresses them; only the function-level parts are decided (rt_check reports iff "
+               "on event-loop latency: no function contract expresses them; beyond the BOUNDED virtual-clock stand-in (contracts.rt_native: whole runs of "
+               "the real scheduler, stated bound; recorded findings F17 / F20 counted as known instances) only the function-level parts are decided (rt_check reports iff "
                "behind; the depth-generic arithmetic of the cap raises no internal error: fix c35b8d8 / F12)",
                "set_event(t) 'causes a step at t': decided up to 'time t is inserted into next_steps exactly once and the simulator is woken'; "
                "that a scheduled time is eventually stepped is the liveness part of C05 (not decidable here)",
@@ -31,10 +32,12 @@ LEVEL_TEXT = ("Function contracts on the real rt_check (reports IFF behind the w
               "changes), MosaikRemote.set_event (error outside real-time mode; t >= until ignored with one warning; otherwise t scheduled once, "
               "for every group depth), the real-time cap of advance_progress (progress.time <= ceil(elapsed / rt_factor) on every path, every "
               "depth), scheduler.run (rt_factor <= 0 rejected before anything starts; world.rt_factor = rt_factor * time_resolution; one "
-              "sim_process per simulator with exactly these arguments) and the lemma deriving the pacing bound of the statement from them.")
+              "sim_process per simulator with exactly these arguments) and the lemma deriving the pacing bound of the statement from them. Whole "
+              "real-time runs (never early, complete without internal error, never reported too slow, exactly the demanded steps) by a BOUNDED "
+              "stand-in on a virtual clock (not a proof).")
 DESIGN_REF = "DESIGN.md section 8 (C17)"
 LEVEL_NOTE = ("Partly decided: the function-level clauses are proved (see coverage.not_covered for the whole-run wall-clock clauses). Trusted: pyvc "
               "encoder, reals for floats, assumed contracts of perf_counter/asyncio/loguru, z3.")
-TECHNIQUE = "contract-based deductive verification (AST->z3 VCs on the real functions; virtual clock as a symbolic real)"
+TECHNIQUE = "contract-based deductive verification (AST->z3 VCs on the real functions; the clock as a symbolic real); bounded virtual-clock stand-in for whole real-time runs"
 CLAIMED = True
 NA_REASON = ""
